@@ -201,6 +201,7 @@ func init() {
 			ruleRawCopy(c, r, "")
 			ruleReopenState(c, r, "")
 			ruleEncAvail(c, r, "")
+			ruleWriter2Split(c, r, "")
 			{
 				// the LZMA2 chunk header both ways at its boundary values (a chunk of more than 1 MiB)
 				ct := getChunkTables(c, r, "")
@@ -241,6 +242,7 @@ func init() {
 			ruleEncoderDictArgs(c, r, "")
 			ruleFilterWriterDict(c, r, "")
 			ruleBlockFilters(c, r, "")
+			ruleWriter2Split(c, r, "")
 		},
 	})
 }
